@@ -10,6 +10,7 @@ package registration
 // The registration message carries exactly the given key, gas limit, timestamp and the parsed fee recipient.
 //@ func NewMessage
 //@ props C12
+//@ pure
 //@ ensures r1 == nil ==> res(1, executionAddressFromStr(feeRecipient)) == nil && r0.FeeRecipient == res(0, executionAddressFromStr(feeRecipient))
 //@ ensures r1 == nil ==> r0.GasLimit == gasLimit && r0.Timestamp == timestamp && r0.Pubkey == pubkey
 //@ canary r1 != nil
